@@ -63,7 +63,7 @@ func workloadTxs(wl string) map[uint64][]*types.Transaction {
 	}
 	out := map[uint64][]*types.Transaction{}
 	mk := func(nonce uint64, to byte, val int64) *types.Transaction {
-		tx := types.NewTransaction(nonce, common.BytesToAddress([]byte{0xee, to}), big.NewInt(val), 21000, big.NewInt(1), nil)
+		tx := types.NewTransaction(nonce, common.BytesToAddress([]byte{0xee, to}), big.NewInt(val), 100000, big.NewInt(1), nil)
 		stx, err := types.SignTx(types.HomesteadSigner{}, tx, userKey)
 		if err != nil {
 			panic(err)
@@ -160,6 +160,31 @@ func record(mode, wl string) *preRun {
 		}
 		pr.cuts = append(pr.cuts, cut{idx: idx, walSynced: lastSynced, walTail: n.Full.WAL.FileWithTail(), height: n.CS.Height})
 	}
+	n.OnOwnLogged = func(nn *consensus.VerifNode, msg consensus.Message) {
+		// the own message is about to enter the node's state: everything recorded so far is durable
+		var kind string
+		var h uint64
+		var rd uint32
+		var t int32
+		var id types.BlockID
+		switch m := msg.(type) {
+		case *consensus.ProposalMessage:
+			kind, h, rd, id = "proposal", m.Proposal.Height, m.Proposal.Round, m.Proposal.POLBlockID
+		case *consensus.VoteMessage:
+			kind, h, rd, t, id = "vote", m.Vote.Height, m.Vote.Round, int32(m.Vote.Type), m.Vote.BlockID
+		default:
+			return
+		}
+		for i := len(nn.Signed) - 1; i >= 0; i-- {
+			sr := nn.Signed[i]
+			if sr.Kind == kind && sr.Height == h && sr.Round == rd && (kind == "proposal" || sr.Type == t) && sr.BlockID.Equal(id) {
+				if _, ok := pr.published[i]; !ok {
+					pr.published[i] = len(rec.Ops)
+				}
+				break
+			}
+		}
+	}
 	n.Begin()
 	ok := n.RunToHeight(targetHeight, 50, func(next uint64) { offer(n, wl, next) })
 	rec.OnCut = nil
@@ -183,9 +208,6 @@ func record(mode, wl string) *preRun {
 	for i := pr.start; i < len(pr.ops); i++ {
 		op := pr.ops[i]
 		if op.Dev == "wal" {
-			for _, s := range op.OwnSigs {
-				pr.published[s] = i
-			}
 			if op.EndHeight > 0 {
 				pr.endHeight[uint64(op.EndHeight)] = i
 			}
@@ -234,10 +256,11 @@ type caseID struct {
 	After  string `json:"after"`
 	Before string `json:"before"`
 	Height uint64 `json:"height_in_progress"`
+	Env    string `json:"environment"`
 }
 
 // restart boots the node on the image of cut c / WAL variant and judges it. Returns (signature suffix -> description).
-func restart(pr *preRun, c cut, tail string, wal []byte) map[string]string {
+func restart(pr *preRun, c cut, tail string, wal []byte, env string) map[string]string {
 	out := map[string]string{}
 	rec2 := &consensus.VerifRecorder{Off: true}
 	db2 := consensus.VerifRestoreDB(pr.ops, c.idx, rec2)
@@ -274,10 +297,7 @@ func restart(pr *preRun, c cut, tail string, wal []byte) map[string]string {
 	if head != csH {
 		out["R2:stores-disagree"] = fmt.Sprintf("after the restart the block store head is at height %d but the consensus state is at height %d", head, csH)
 	}
-	if head > maxSaved {
-		out["R2:head-beyond-saved"] = fmt.Sprintf("head height %d although only %d blocks had been saved", head, maxSaved)
-	}
-	for h := uint64(1); h <= head && h <= pr.final; h++ {
+	for h := uint64(1); h <= head && h <= maxSaved; h++ {
 		b := n.Full.BC.GetBlockByHeight(h)
 		if b == nil || b.Hash() != pr.blocks[h] {
 			out["R2:block-replaced"] = fmt.Sprintf("block at height %d is not the block committed before the crash", h)
@@ -290,7 +310,14 @@ func restart(pr *preRun, c cut, tail string, wal []byte) map[string]string {
 	startH := csH
 	n.Begin()
 	target := startH + 2
-	ok := n.RunToHeight(target, 60, func(next uint64) { offer(n, pr.wl, next) })
+	first := true
+	ok := n.RunToHeight(target, 60, func(next uint64) {
+		if env == "pool-empty" && first {
+			first = false
+			return // the restarted node's pool is still empty when it works on its first height
+		}
+		offer(n, pr.wl, next)
+	})
 	if n.Failed != nil {
 		out["R3:halted"] = "after the restart the consensus handler panics (CONSENSUS FAILURE): " + firstLine(fmt.Sprint(n.Failed))
 	} else if !ok {
@@ -300,8 +327,8 @@ func restart(pr *preRun, c cut, tail string, wal []byte) map[string]string {
 	for _, s2 := range n.Signed {
 		for i, s1 := range pr.signed {
 			pi, pub := pr.published[i]
-			if !pub || pi >= c.idx {
-				continue
+			if !pub || pi > c.idx {
+				continue // not yet handed to the node's own state (hence to gossip) when the process died
 			}
 			if s1.Kind == s2.Kind && s1.Type == s2.Type && s1.Height == s2.Height && s1.Round == s2.Round && !s1.BlockID.Equal(s2.BlockID) {
 				k := "proposal"
@@ -321,7 +348,7 @@ func restart(pr *preRun, c cut, tail string, wal []byte) map[string]string {
 		}
 	}
 	// R6: flush-every-block mode continues like the uncrashed twin (transaction lists per height)
-	if pr.mode == "flush" && n.Failed == nil && ok {
+	if pr.mode == "flush" && n.Failed == nil && ok && env == "reoffer" {
 		for h := uint64(1); h <= pr.final && h <= n.State().LastBlockHeight; h++ {
 			b := n.Full.BC.GetBlockByHeight(h)
 			if b == nil {
@@ -332,7 +359,7 @@ func restart(pr *preRun, c cut, tail string, wal []byte) map[string]string {
 				got = append(got, tx.Hash())
 			}
 			if fmt.Sprint(got) != fmt.Sprint(pr.txs[h]) {
-				out["R6:twin-differs"] = fmt.Sprintf("the restarted node's block %d carries different transactions than the twin that never crashed", h)
+				out["R6:twin-differs"] = fmt.Sprintf("the restarted node's block %d carries transactions %x, the twin that never crashed has %x", h, got, pr.txs[h])
 			}
 		}
 	}
@@ -384,6 +411,7 @@ func main() {
 		tail string
 		wal  []byte
 		torn int
+		env  string
 	}
 	var jobs []job
 	for _, mode := range modes {
@@ -398,9 +426,11 @@ func main() {
 				r.Sample(map[string]interface{}{"mode": mode, "workload": wl, "durable_operation_order": labels})
 			}
 			for _, c := range pr.cuts {
-				jobs = append(jobs, job{pr, c, "synced", c.walSynced, 0})
+				jobs = append(jobs, job{pr, c, "synced", c.walSynced, 0, "reoffer"})
+				jobs = append(jobs, job{pr, c, "synced", c.walSynced, 0, "pool-empty"})
 				if len(c.walTail) > len(c.walSynced) {
-					jobs = append(jobs, job{pr, c, "whole", c.walTail, 0})
+					jobs = append(jobs, job{pr, c, "whole", c.walTail, 0, "reoffer"})
+					jobs = append(jobs, job{pr, c, "whole", c.walTail, 0, "pool-empty"})
 					bs := boundaries(c.walTail, len(c.walSynced))
 					// torn tails: at each inner record boundary, mid-header and mid-payload of the first unsynced record
 					var torn []int
@@ -415,12 +445,35 @@ func main() {
 					}
 					for _, t := range torn {
 						if t > len(c.walSynced) && t < len(c.walTail) {
-							jobs = append(jobs, job{pr, c, "torn", c.walTail[:t], t - len(c.walSynced)})
+							jobs = append(jobs, job{pr, c, "torn", c.walTail[:t], t - len(c.walSynced), "reoffer"})
 						}
 					}
 				}
 			}
 		}
+	}
+	if r.ReplayPath != "" {
+		var cid caseID
+		if err := r.LoadReplay(&cid); err != nil {
+			fmt.Println("cannot load replay:", err)
+			os.Exit(2)
+		}
+		bad := false
+		for _, j := range jobs {
+			if j.pr.mode == cid.Mode && j.pr.wl == cid.WL && j.c.idx-j.pr.start == cid.Cut && j.tail == cid.Tail && j.torn == cid.TornAt && j.env == cid.Env {
+				fmt.Printf("replaying: mode=%s workload=%s cut before durable op #%d (%s | %s) wal tail=%s env=%s\n", cid.Mode, cid.WL, cid.Cut, cid.After, cid.Before, cid.Tail, cid.Env)
+				for k, what := range restart(j.pr, j.c, j.tail, j.wal, j.env) {
+					fmt.Printf("  %s: %s\n", k, what)
+					bad = true
+				}
+			}
+		}
+		if bad {
+			fmt.Printf("VIOLATION property=C05 replay=%s\n", r.ReplayPath)
+			os.Exit(1)
+		}
+		fmt.Println("no oracle fails on this case")
+		os.Exit(0)
 	}
 	var mu sync.Mutex
 	windows := map[string]bool{}
@@ -441,16 +494,18 @@ func main() {
 		if j.c.idx == j.pr.start {
 			la = "boot"
 		}
-		res := restart(j.pr, j.c, j.tail, j.wal)
+		res := restart(j.pr, j.c, j.tail, j.wal, j.env)
 		r.Add("evaluations", 1)
 		mu.Lock()
 		windows[fmt.Sprintf("%s|%s|%s|%s|%s", j.pr.mode, hclass, la, lb, j.tail)] = true
 		mu.Unlock()
-		r.Distinct("distinct_nontrivial", fmt.Sprintf("%s|%s|%d|%s|%d", j.pr.mode, j.pr.wl, j.c.idx, j.tail, j.torn))
-		cid := caseID{Mode: j.pr.mode, WL: j.pr.wl, Cut: j.c.idx - j.pr.start, Tail: j.tail, TornAt: j.torn, After: la, Before: lb, Height: j.c.height}
+		r.Distinct("distinct_nontrivial", fmt.Sprintf("%s|%s|%d|%s|%d|%s", j.pr.mode, j.pr.wl, j.c.idx, j.tail, j.torn, j.env))
+		cid := caseID{Mode: j.pr.mode, WL: j.pr.wl, Cut: j.c.idx - j.pr.start, Tail: j.tail, TornAt: j.torn, After: la, Before: lb, Height: j.c.height, Env: j.env}
 		for k, what := range res {
-			sig := fmt.Sprintf("C05|mode=%s|height=%s|after=%s|before=%s|tail=%s|oracle=%s", j.pr.mode, hclass, la, lb, j.tail, k)
-			r.Violation(sig, what, cid)
+			// the WAL tail variant and the environment are part of the replay case, not of the signature:
+			// a crash window is identified by the durable operations around the cut
+			sig := fmt.Sprintf("C05|mode=%s|height=%s|after=%s|before=%s|oracle=%s", j.pr.mode, hclass, la, lb, k)
+			r.Violation(sig, what+fmt.Sprintf(" [wal tail: %s, environment: %s]", j.tail, j.env), cid)
 		}
 		if len(res) == 0 {
 			r.Add("clean_restarts", 1)
